@@ -51,7 +51,13 @@ def classify(o):
         for kind, pat in INTERNAL_PATTERNS:
             if pat.search(msg):
                 return "internal:" + kind
-        return "diagnostic"      # a deliberate, descriptive panic ("Only structs can derive a constructor", ...)
+        # a deliberate, descriptive panic ("Only structs can derive a constructor", ...) is raised by derive_more's own
+        # source; a panic raised inside a dependency (syn, quote, proc_macro2, core) is an assertion of THAT crate failing
+        # on what derive_more handed it - an internal failure, whatever its text
+        loc = str(o.get("loc") or "")
+        if loc and "/impl/src/" not in loc:
+            return "internal:dependency_assertion"
+        return "diagnostic"
     if oc == "parse_error":
         return "invalid_input"
     return "diagnostic"
@@ -64,6 +70,8 @@ SHAPES = {
     "enum_named": "enum S {{ {V}A {{ {F}x: i32 }}, B {{ y: u8 }} }}", "enum_mixed": "enum S {{ {V}A, B({F}i32, u8), C {{ z: String }} }}",
     "union": "union S {{ {F}a: i32, b: u32 }}", "generic_struct": "struct S<'a, T: Clone, const N: usize>({F}&'a [T; N]) where T: Default;",
     "generic_enum": "enum S<T, U = i32> {{ {V}A({F}T), B(U) }}", "raw_names": "enum r#enum {{ {V}r#fn({F}i32), r#in {{ r#type: u8 }} }}",
+    "raw_unit_enum": "enum r#enum {{ {V}r#fn, r#in }}", "raw_struct": "struct r#struct {{ {F}r#type: i32, r#fn: u8 }}",
+    "raw_newtype": "struct r#fn({F}i32);",
 }
 
 
@@ -81,6 +89,8 @@ def body_text(body, attr):
         "fmt_unicode": f'#[{a}("é{{€}}\U0001F600{{:\U0001F600<5}}")]', "fmt_huge_number": f'#[{a}("{{:99999999999999999999999}}{{340282366920938463463374607431768211456}}")]',
         "fmt_args_deep": f'#[{a}("{{}}", {deep})]', "keyword": f"#[{a}(fn, struct, self)]", "punct_soup": f"#[{a}(<<= => ..= :: | || &&)]",
         "group_soup": f"#[{a}([{{()}}], {{[()]}}, (,))]",
+        "nested_trailing": f"#[{a}(owned(i32,), ref)]", "nested_trailing2": f"#[{a}(owned(i32,),)]",
+        "word_repr": f"#[{a}(repr)]", "word_forward": f"#[{a}(forward)]", "word_skip": f"#[{a}(skip)]",
     }[body]
 
 
